@@ -179,7 +179,7 @@ static void emit_state(char const *tag, int rc)
     o += "{\"name\":" + jstr(b->name) + ",\"E\":" + jnum(b->get_energy()) +
          ",\"active\":" + std::string(b->is_enabled() ? "1" : "0") + "}";
   }
-  o += "],\"alchF\":" + jnum(px->alch_applied_force);
+  o += "],\"alchF\":" + jnum(px->alch_applied_force) + ",\"alchL\":" + jnum(px->alch_lambda);
   o += ",\"depth\":" + std::to_string((int)cvm::depth());
   o += ",\"errs\":" + errs_json() + "}\n";
   fputs(o.c_str(), tr);
@@ -291,6 +291,14 @@ int main(int argc, char **argv)
       px->alch_lambda = r[0];
       if (r.size() > 1) px->alch_dEdl = r[1];
       if (r.size() > 2) px->alch_d2Edl2 = r[2];
+      continue;
+    }
+    if (cmd == "alchd") {
+      // derivatives only: lambda stays what Colvars sent last
+      read_reals(w, 1, r);
+      px->alch_available = true;
+      if (r.size() > 0) px->alch_dEdl = r[0];
+      if (r.size() > 1) px->alch_d2Edl2 = r[1];
       continue;
     }
     if (cmd == "schedule") {
@@ -452,29 +460,44 @@ int main(int argc, char **argv)
       o += "],\"F0\":[";
       for (size_t i = 0; i < F0.size(); i++) { if (i) o += ","; o += jvec(F0[i]); }
       o += "],\"D\":[";
+      std::string noise = "[";
       // for all engine atoms (also those not requested: energy must not depend on them)
       for (int a = 0; a < px->P.natoms; a++) {
         if (a) o += ",";
         o += "[";
         for (int d = 0; d < 3; d++) {
           cvm::rvector const save = px->pos[a];
-          double e[4];
-          double const hs[4] = {h, -h, 0.5 * h, -0.5 * h};
-          for (int k = 0; k < 4; k++) {
+          double e[6];
+          double const hs[6] = {h, -h, 0.5 * h, -0.5 * h, 0.25 * h, -0.25 * h};
+          for (int k = 0; k < 6; k++) {
             px->pos[a] = save;
             px->pos[a][d] += hs[k];
             e[k] = probe_energy(advance);
           }
+          // rounding noise of the energy as a function of this coordinate: displacements too small to change the energy
+          // otherwise than through its slope (taken from the applied force: an error there enters at 1e-3 of its size) resample
+          // the rounding errors of the evaluation (e.g. a variable that is a difference of large terms is quantised)
+          double nz = 0.0;
+          double const ts[4] = {1.0e-7 * h, 1.0e-3 * h, -1.0e-3 * h, 2.5e-3 * h};
+          double fa = 0.0;
+          for (size_t i = 0; i < ids.size(); i++) if (ids[i] == a) fa += F0[i][d];
+          for (int k = 0; k < 4; k++) {
+            px->pos[a] = save;
+            px->pos[a][d] += ts[k];
+            nz = std::max(nz, std::fabs(probe_energy(advance) - E0 + fa * ts[k]));
+          }
+          if (a || d) noise += ",";
+          noise += jnum(nz);
           px->pos[a] = save;
           if (d) o += ",";
-          o += "[" + jnum(e[0]) + "," + jnum(e[1]) + "," + jnum(e[2]) + "," + jnum(e[3]) + "]";
+          o += "[" + jnum(e[0]) + "," + jnum(e[1]) + "," + jnum(e[2]) + "," + jnum(e[3]) + "," + jnum(e[4]) + "," + jnum(e[5]) + "]";
         }
         o += "]";
       }
       // re-evaluate at the base point, to leave the module in the base state and to
       // check that the energy did not drift while probing (frozen-state assumption)
       double E1 = probe_energy(advance);
-      o += "],\"E1\":" + jnum(E1) + ",\"errs\":" + errs_json() + "}\n";
+      o += "],\"N\":" + noise + "]" + ",\"E1\":" + jnum(E1) + ",\"errs\":" + errs_json() + "}\n";
       fputs(o.c_str(), tr);
       fflush(tr);
       continue;
